@@ -839,7 +839,15 @@ func (s *Script) appendOp(o *op, left, right any) (pb *precBuf) {
 		pb.buf = append(pb.buf, ' ')
 		pb.buf = append(pb.buf, o.name...)
 		pb.buf = append(pb.buf, ' ')
-		pb.buf = s.appendValue(pb.buf, right, o.prec)
+		// Operators of equal precedence are read as left associative so a
+		// right operand of equal precedence keeps its parentheses.
+		if rb, ok := right.(*precBuf); ok && rb.prec == o.prec {
+			pb.buf = append(pb.buf, '(')
+			pb.buf = append(pb.buf, rb.buf...)
+			pb.buf = append(pb.buf, ')')
+		} else {
+			pb.buf = s.appendValue(pb.buf, right, o.prec)
+		}
 	}
 	return
 }
